@@ -2,7 +2,7 @@ import sys, os
 os.environ.setdefault('VF_WORK', '/dev/shm/vfdev')
 from vf import props
 pid = sys.argv[1]; uname = sys.argv[2]; be = int(sys.argv[3])
-chk = props.PROPS[pid]('quick', 1)
+chk = props.PROPS[pid](os.environ.get('TIER','quick'), 1)
 for u in chk.units:
     if u.name == uname and u.be == be:
         u.build_real(); u.lower(); u.build_gen(); print(u.dir, len(u.index), 'harnesses'); break
